@@ -201,7 +201,7 @@ pub fn cases(tier: Tier) -> Vec<Case> {
         }
     }
     // (a') U-scale: sizes, counts and ids on both sides of every threshold
-    for s in universe::scale_shapes(tier) {
+    for s in universe::scale_shapes(tier).into_iter().chain(universe::pattern_shapes(tier)) {
         for (how, insts) in frame(&s.inst).into_iter().take(1) {
             out.push(Case { id: format!("{}:{}", s.id, how), insts, raw: None, version: 0x0001_0300, bound: 5000 });
         }
